@@ -37,6 +37,9 @@ type exploreCfg struct {
 	syncs   int     // number of Sync callers
 	delTo   int     // >0: one tail-side DeleteRange(1, delTo) caller
 	late    bool    // readers may start after appends (otherwise all readers are started first)
+	empty   bool    // the store starts empty (no header 1): the first batch initialises it at an arbitrary height
+	wipe    bool    // c12: one whole-store DeleteRange at a quiet moment, readers stay parked across it
+	stopMid bool    // c06: Stop is called somewhere in the middle; the store is reopened afterwards
 }
 
 func genExplore(rnd *rand.Rand, mode string) exploreCfg {
@@ -68,6 +71,11 @@ func genExplore(rnd *rand.Rand, mode string) exploreCfg {
 		}
 	}
 	c.script = runs
+	if mode == "c06" {
+		c.syncs = 1 + rnd.Intn(2)
+		c.stopMid = true
+		return c
+	}
 	if mode == "c17" {
 		c.syncs = rnd.Intn(2)
 		if rnd.Intn(2) == 0 {
@@ -85,12 +93,24 @@ func genExplore(rnd *rand.Rand, mode string) exploreCfg {
 	}
 	c.syncs = rnd.Intn(2)
 	c.late = rnd.Intn(3) == 0
+	switch rnd.Intn(6) {
+	case 0:
+		c.empty = true // the first batch initialises the store somewhere above height 1
+	case 1:
+		c.wipe = true
+	}
+	if c.empty || c.wipe {
+		// ascending batches only: a height at or below Height() that is not stored is then never stored later, so
+		// "not found" stays a correct answer for it until the end of the run
+		sort.Slice(c.script, func(i, j int) bool { return c.script[i][0] < c.script[j][0] })
+	}
 	return c
 }
 
 func exploreOnce(t *testing.T, id int, rnd *rand.Rand, mode string) (rec0 Record, fatal string) {
 	c := genExplore(rnd, mode)
-	rec0 = Record{Tr: id, Readers: []RdrOut{}, Appended: []int{}, HeadSeq: []int{}, HsSeq: []int{}}
+	rec0 = Record{Tr: id, Readers: []RdrOut{}, Appended: []int{}, HeadSeq: []int{}, HsSeq: []int{}, Stored: []int{}, Missing: []int{},
+		ReturnedBeforeStop: []int{}, Lost: []int{}}
 	synctest.Test(t, func(t *testing.T) {
 		chain := vh.NewChain("c", 1, 12, time.Now().Add(-time.Hour), time.Second, 0)
 		rs := rec.New()
@@ -104,8 +124,10 @@ func exploreOnce(t *testing.T, id int, rnd *rand.Rand, mode string) (rec0 Record
 			fatal = err.Error()
 			return
 		}
-		_ = st.Append(bg, chain.At(1))
-		_ = st.Sync(bg)
+		if !c.empty {
+			_ = st.Append(bg, chain.At(1))
+			_ = st.Sync(bg)
+		}
 		synctest.Wait()
 		sc := newSched()
 		sc.probe = func() map[int]bool {
@@ -127,7 +149,19 @@ func exploreOnce(t *testing.T, id int, rnd *rand.Rand, mode string) (rec0 Record
 		for i, w := range c.wants {
 			readers[i] = &reader{id: i + 1, want: w}
 		}
-		appended := map[int]bool{1: true}
+		appended := map[int]bool{1: !c.empty}
+		if c.empty {
+			delete(appended, 1)
+		}
+		stored := map[int]bool{} // appended and not wiped since
+		if !c.empty {
+			stored[1] = true
+		}
+		returned := map[int]bool{} // heights whose Append had returned nil
+		syncedBad := 0
+		stopCalled, stopDone := false, false
+		var returnedBeforeStop []int
+		delOK := false
 		observe := func() {
 			x := context.WithValue(bg, procKey{}, "X")
 			hd, _ := st.Head(x)
@@ -164,6 +198,7 @@ func exploreOnce(t *testing.T, id int, rnd *rand.Rand, mode string) (rec0 Record
 		}
 		// calls that have not been made yet, in their own order per kind
 		nextReader, nextBatch, nextSync, delLeft := 0, 0, c.syncs, c.delTo > 0
+		wipeLeft, stopLeft := c.wipe, c.stopMid
 		appendBusy := false // the previous Append has not returned yet (keeps the submission order of the script)
 		var errs []string
 		for step := 0; step < 600; step++ {
@@ -199,6 +234,13 @@ func exploreOnce(t *testing.T, id int, rnd *rand.Rand, mode string) (rec0 Record
 			if delLeft && nextBatch > 0 && int(st.Height()) >= c.delTo {
 				acts = append(acts, act{"delete", ""})
 			}
+			// a whole-store deletion at a quiet moment: nothing parked at a gate, no append in flight, something stored
+			if wipeLeft && len(parked) == 0 && !busy && nextBatch > 0 && nextBatch < len(c.script) && st.Height() > 0 {
+				acts = append(acts, act{"wipe", ""})
+			}
+			if stopLeft && nextBatch > 0 {
+				acts = append(acts, act{"stop", ""})
+			}
 			if len(acts) == 0 {
 				break
 			}
@@ -219,14 +261,44 @@ func exploreOnce(t *testing.T, id int, rnd *rand.Rand, mode string) (rec0 Record
 				mu.Lock()
 				appendBusy = true
 				mu.Unlock()
+				for _, h := range c.script[nextBatch-1] {
+					stored[h] = true
+				}
+				batch := c.script[nextBatch-1]
+				alsoSync := mode == "c17" && rnd.Intn(2) == 0
 				go func() {
-					err := st.Append(context.WithValue(bg, procKey{}, "A"), hs...)
+					actx := context.WithValue(bg, procKey{}, "A")
+					err := st.Append(actx, hs...)
 					mu.Lock()
 					appendBusy = false
-					if err != nil {
+					if err != nil && !stopCalled {
 						errs = append(errs, "append: "+err.Error())
 					}
+					if err == nil {
+						for _, h := range batch {
+							returned[h] = true
+						}
+					}
 					mu.Unlock()
+					if err == nil && alsoSync {
+						// C17: every header whose Append has been followed by Sync is readable
+						if err := st.Sync(actx); err != nil {
+							mu.Lock()
+							errs = append(errs, "sync: "+err.Error())
+							mu.Unlock()
+							return
+						}
+						for _, h := range hs {
+							if c.delTo > 0 && int(h.Height()) < c.delTo {
+								continue // may legitimately be pruned by the racing deleter
+							}
+							if _, err := st.Get(context.WithValue(bg, procKey{}, "X"), h.Hash()); err != nil {
+								mu.Lock()
+								syncedBad++
+								mu.Unlock()
+							}
+						}
+					}
 				}()
 			case "sync":
 				nextSync--
@@ -242,7 +314,37 @@ func exploreOnce(t *testing.T, id int, rnd *rand.Rand, mode string) (rec0 Record
 				delLeft = false
 				go func() {
 					// may legitimately fail (range above the head when headers are missing): not judged
-					_ = st.DeleteRange(context.WithValue(bg, procKey{}, "D"), 1, uint64(c.delTo))
+					if err := st.DeleteRange(context.WithValue(bg, procKey{}, "D"), 1, uint64(c.delTo)); err == nil {
+						mu.Lock()
+						delOK = true
+						mu.Unlock()
+					}
+				}()
+			case "wipe":
+				wipeLeft = false
+				x := context.WithValue(bg, procKey{}, "X") // not gated: the deletion itself is not what is explored here
+				tl, terr := st.Tail(x)
+				hd, herr := st.Head(x)
+				if terr == nil && herr == nil {
+					if err := st.DeleteRange(x, tl.Height(), hd.Height()+1); err == nil {
+						for h := range stored {
+							delete(stored, h)
+						}
+					}
+				}
+			case "stop":
+				stopLeft = false
+				mu.Lock()
+				stopCalled = true
+				for h := range returned {
+					returnedBeforeStop = append(returnedBeforeStop, h)
+				}
+				mu.Unlock()
+				go func() {
+					_ = st.Stop(context.WithValue(bg, procKey{}, "T"))
+					mu.Lock()
+					stopDone = true
+					mu.Unlock()
 				}()
 			}
 			synctest.Wait()
@@ -251,6 +353,61 @@ func exploreOnce(t *testing.T, id int, rnd *rand.Rand, mode string) (rec0 Record
 		}
 		// drain: readers first, then everything; writer runs until idle
 		sc.drain()
+		if c.stopMid {
+			// C06: Stop was called in the middle (or is called now); the store is reopened on the same datastore and must
+			// hold every header whose Append had returned before Stop was called
+			if !stopCalled {
+				mu.Lock()
+				stopCalled = true
+				for h := range returned {
+					returnedBeforeStop = append(returnedBeforeStop, h)
+				}
+				mu.Unlock()
+				_ = st.Stop(context.WithValue(bg, procKey{}, "X"))
+				stopDone = true
+			}
+			time.Sleep(time.Minute)
+			synctest.Wait()
+			mu.Lock()
+			done := stopDone
+			mu.Unlock()
+			rec0.Kind = "stop"
+			rec0.StopHung = !done
+			store.VerifHook = nil
+			rs.Gate = nil
+			st2, err := store.NewStore[*vh.Header](rs, store.WithWriteBatchSize(c.bsz))
+			if err == nil {
+				err = st2.Start(bg)
+			}
+			if err != nil {
+				rec0.ReopenErr = err.Error()
+			} else {
+				synctest.Wait()
+				sort.Ints(returnedBeforeStop)
+				rec0.ReturnedBeforeStop = append([]int{}, returnedBeforeStop...)
+				rec0.Lost = []int{}
+				for _, h := range returnedBeforeStop {
+					ctx, cancel := context.WithTimeout(bg, time.Millisecond)
+					_, err1 := st2.Get(ctx, chain.At(uint64(h)).Hash())
+					cancel()
+					if err1 != nil {
+						rec0.Lost = append(rec0.Lost, h)
+					}
+				}
+				if hd, err := st2.Head(bg); err == nil {
+					rec0.Head = int(hd.Height())
+					// Head is the top of the contiguous run: the next height is not stored
+					ctx, cancel := context.WithTimeout(bg, time.Millisecond)
+					if _, err := st2.Get(ctx, chain.At(hd.Height()+1).Hash()); err == nil {
+						rec0.HeadBelowRun = true
+					}
+					cancel()
+				}
+				_ = st2.Stop(bg)
+				synctest.Wait()
+			}
+			return
+		}
 		_ = st.Sync(context.WithValue(bg, procKey{}, "X"))
 		synctest.Wait()
 		observe()
@@ -285,20 +442,49 @@ func exploreOnce(t *testing.T, id int, rnd *rand.Rand, mode string) (rec0 Record
 		}
 		mu.Unlock()
 		for h := range appended {
-			rec0.Appended = append(rec0.Appended, h)
+			if appended[h] {
+				rec0.Appended = append(rec0.Appended, h)
+			}
 		}
 		sort.Ints(rec0.Appended)
+		rec0.Stored = []int{}
+		for h := range stored {
+			rec0.Stored = append(rec0.Stored, h)
+		}
+		sort.Ints(rec0.Stored)
 		x := context.WithValue(bg, procKey{}, "X")
 		if hd, _ := st.Head(x); hd != nil {
 			rec0.Head = int(hd.Height())
 		}
 		rec0.Height = int(st.Height())
+		if mode == "c17" {
+			// final state: Tail where the last successful delete left it, gap-free up to Head
+			rec0.Kind = "c17free"
+			mu.Lock()
+			rec0.SyncedBad = syncedBad
+			rec0.TailWant = 1
+			if delOK {
+				rec0.TailWant = c.delTo
+			}
+			mu.Unlock()
+			if tl, _ := st.Tail(x); tl != nil {
+				rec0.FinalTail = int(tl.Height())
+			}
+			rec0.Missing = []int{}
+			for h := rec0.FinalTail; h >= 1 && h <= rec0.Head; h++ {
+				ctx, cancel := context.WithTimeout(x, time.Millisecond)
+				if _, err := st.GetByHeight(ctx, uint64(h)); err != nil {
+					rec0.Missing = append(rec0.Missing, h)
+				}
+				cancel()
+			}
+		}
 		store.VerifHook = nil
 		rs.Gate = nil
 		_ = st.Stop(bg)
 		synctest.Wait()
 	})
-	rec0.Cfg = fmt.Sprintf("n=%d bsz=%d wants=%v script=%v syncs=%d delTo=%d late=%v", c.n, c.bsz, c.wants, c.script, c.syncs, c.delTo, c.late)
+	rec0.Cfg = fmt.Sprintf("n=%d bsz=%d wants=%v script=%v syncs=%d delTo=%d late=%v empty=%v wipe=%v stopMid=%v", c.n, c.bsz, c.wants, c.script, c.syncs, c.delTo, c.late, c.empty, c.wipe, c.stopMid)
 	return rec0, fatal
 }
 
